@@ -1,32 +1,9 @@
 #![no_main]
-//! C04: ToUnicode CMap parsing + decode_text. Byte 0: flags (encoding name, compression, envelope), bytes 1..9: the
-//! codes to decode, the rest: the CMap body (wrapped in the Adobe template unless the flag says raw).
+//! libFuzzer front end of the 'cmap' target; the decoding of the bytes into worker calls lives in lv::props::fuzzdec
+//! (shared with the confirmation step of the thorough tier). Any panic (overflow checks are on), abort, stack
+//! overflow, timeout or out-of-memory is a libFuzzer artifact, which the check re-runs in the isolated worker.
 use libfuzzer_sys::fuzz_target;
-use lv::model::B;
-use lv::props::entries::{dispatch, CMapSpec, E_CMAP};
 
 fuzz_target!(|data: &[u8]| {
-    if data.len() > 65536 || data.len() < 10 {
-        return;
-    }
-    let flags = data[0];
-    let codes = data[1..9].to_vec();
-    let body = &data[9..];
-    let cmap = if flags & 1 == 0 {
-        let mut v = b"/CIDInit /ProcSet findresource begin\n12 dict begin\nbegincmap\n/CMapType 2 def\n1 begincodespacerange\n<0000> <FFFF>\nendcodespacerange\n".to_vec();
-        v.extend_from_slice(body);
-        v.extend_from_slice(b"\nendcmap\nCMapName currentdict /CMap defineresource pop\nend\nend\n");
-        v
-    } else {
-        body.to_vec()
-    };
-    let encoding = match (flags >> 1) % 4 {
-        0 => None,
-        1 => Some(B::from("Identity-H")),
-        2 => Some(B::from("Identity-V")),
-        _ => Some(B::from("WinAnsiEncoding")),
-    };
-    let spec = CMapSpec { cmap: B(cmap), codes: B(codes), encoding, compress: flags & 0x10 != 0 };
-    let payload = serde_json::to_vec(&spec).unwrap();
-    let _ = dispatch(E_CMAP, &payload);
+    lv::props::fuzzdec::fuzz_one("cmap", data);
 });
